@@ -1422,6 +1422,28 @@ def hist_add(h, k, n=1):
     h[k] = h.get(k, 0) + n
 
 
+def has_coincident_atoms(spec):
+    """some object of the case (an argument, or a construction molecule given with positions) has two atoms at exactly
+    the same position"""
+    def rows(x):
+        if isinstance(x, dict):
+            if isinstance(x.get("pos"), list) and x["pos"] and isinstance(x["pos"][0], list):
+                yield x["pos"]
+            for v in x.values():
+                yield from rows(v)
+        elif isinstance(x, list):
+            for v in x:
+                yield from rows(v)
+    for pos in rows(spec):
+        seen = set()
+        for r in pos:
+            t = tuple(r)
+            if t in seen:
+                return True
+            seen.add(t)
+    return False
+
+
 def correspondence(ctx):
     rs = ctx.np_rng("K")
     n_cases = ctx.n(120, 700)
@@ -1478,6 +1500,13 @@ def correspondence(ctx):
     if codes is None:
         K["error"] = log
         return [{"error": "coqc failed on the correspondence cases", "log": log[-1500:]}]
+    # an argument with two COINCIDENT atoms (exactly equal rows; the collinear_anchor generator can produce one by
+    # accident) is outside the quantifier of C01-C04 (distinct positions): the implementation propagates NaN where the
+    # float model stops with Err EDiv0, and the error classes need not agree.  Such a case is indeterminate (code 2)
+    # when, and only when, the comparison reports an error-class mismatch (code 3); a value disagreement stays one.
+    for i in list(codes):
+        if codes[i] == 3 and has_coincident_atoms(metas[i]["spec"]):
+            codes[i] = 2
     K["disagree"] = sum(1 for c in codes.values() if c in (1, 3))
     K["indeterminate"] = sum(1 for c in codes.values() if c == 2)
     K["agree"] = len(cases) - len(codes)
